@@ -8,9 +8,10 @@ sequence, so the theorems hold for every interleaving, every response order (dup
 zero sequence numbers included), sweeps at any instants, and every counter position (`setCounter`).
 `completions` = invocations of RpcContext.run in order; `callbacks` = invocations of the asynchronous
 callback with their arguments; `returned` = what the blocking `Call`s returned.
-Invariant and helper lemmas: Lemmas/C15.lean.
+Invariant and helper lemmas: Lemmas/C15.lean; liveness (`C15_no_stuck`, `C15_eventually_completed`,
+`C15_reap_terminates`): definitions in Lemmas/C15Live.lean.
 -/
-import Fatchoy.Lemmas.C15
+import Fatchoy.Lemmas.C15Live
 namespace Fatchoy.C15
 
 /-- the regenerated facts: TTL and codes positive, Errno reads the body (D9 repaired), the sequence search
@@ -319,6 +320,94 @@ theorem C15_callback_args (P : Params) (hv : Valid P) {s : St} (hr : Reach P s) 
     split at b <;> omega
   · intro e he; exact h.R.blockMem e (Or.inl he)
 
+/-! ### liveness (Lemmas/C15Live.lean: `Act.internal`, `Act.mutex`, `stepHeld`, `mu`, `Unfinished`, `Quiescent`) -/
+
+/-- no stuck state — with the makeCall observation made explicit.  `held = true` means: some makeCall is blocked
+on the full request queue and holds the client's mutex meanwhile.  (1) In ANY state in which a ReapTimeout has
+calls left in its batch or a completion sits in a blocking caller's `done` channel, an internal action that needs
+no mutex is enabled — `held` or not.  (2) While `held`, no critical section runs at all (no Dispatch, no sweep, no
+stripExpired, no other call, no counter hook): a response that arrives meanwhile waits, a deadline that passes is
+not swept.  (3) What ends that is the queue consumer alone (environment): with a buffered queue its `pop` is
+enabled and makes room.  So the client is never stuck by its own doing, but its progress on responses and timeouts
+is hostage to the consumer of `PendingQueue` — a consumer that itself calls Dispatch/ReapTimeout/Call on the same
+goroutine deadlocks (DESIGN §10.2); that is an assumption on the environment here, not a theorem. -/
+theorem C15_no_stuck (P : Params) (held : Bool) (s : St) :
+    (Unfinished s → ∃ a, a.internal = true ∧ a.mutex = false ∧ (stepHeld P held s a).isSome = true) ∧
+    (held = true → ∀ a, a.mutex = true → stepHeld P held s a = none) ∧
+    (HeldOk held s → held = true → 0 < s.cap →
+      ∃ s', stepHeld P held s .pop = some s' ∧ (s.queue.length = s.cap → s'.queue.length < s'.cap)) := by
+  refine ⟨no_stuck P held s, ?_, ?_⟩
+  · intro hh a ha; simp [stepHeld, hh, ha]
+  · intro hok hh hc
+    have hlen := hok hh
+    cases hq : s.queue with
+    | nil => rw [hq] at hlen; simp at hlen; omega
+    | cons x q =>
+      refine ⟨{ s with queue := q }, by simp [stepHeld, Act.mutex, step, hq], ?_⟩
+      intro he; show q.length < s.cap; simp at he; omega
+
+/-- every call is eventually completed, exactly once.  `mu s` = 2 × (calls stripped by a ReapTimeout and not yet
+completed) + (completions not yet received by their blocking callers).  From any reachable state, under every
+interleaving of the client's own steps (completion steps of any ReapTimeout in any order, wake-ups): (1) a
+sequence of internal steps has at most `mu s` steps; (2) when none is enabled any more, every batch is empty and
+every `done` channel drained, and every call made so far that was neither refused nor is still outstanding
+(no response yet, deadline not yet swept) nor waits in the expired list for the next ReapTimeout — that is: its
+response arrived (`C15_match`: completed in that very action) or its deadline passed, a sweep ran and a ReapTimeout
+stripped it — is in `completions` exactly once; and every blocking call among them has returned exactly once.
+Assumed: an enabled internal step is eventually taken; callbacks return.  Not internal, hence assumptions on
+the environment: the reaper ticks (`sweep`), somebody calls ReapTimeout (`strip`), and — `C15_no_stuck` (2) — no
+makeCall sits on a full queue for ever. -/
+theorem C15_eventually_completed (P : Params) (hv : Valid P) {s : St} (hr : Reach P s) (acts : List Act) (s' : St)
+    (hi : ∀ a ∈ acts, a.internal = true) (hrun : runActs P s acts = some s') :
+    acts.length + mu s' ≤ mu s ∧
+    (Quiescent P s' →
+      s'.batches.flatten = [] ∧ s'.doneBuf = [] ∧
+      (∀ i, i < s.nextId → i ∉ s.refused → i ∉ pids s.pending → i ∉ eids s.expired →
+        (cids s'.completions).count i = 1) ∧
+      (∀ i, (s'.returned.map (·.1)).count i = (bcids s'.completions).count i)) := by
+  obtain ⟨hm, hp, he, hrf, hn, _, _⟩ := mu_run P acts hi hrun
+  refine ⟨hm, ?_⟩
+  intro hq
+  obtain ⟨hb, hd⟩ := quiescent_empty P hq
+  have hr' := reach_runActs P acts hr hrun
+  have hinv := reach_inv P hv hr'
+  refine ⟨hb, hd, ?_, ?_⟩
+  · intro i hlt h1 h2 h3
+    have h := hinv.ids i
+    rw [hp, he, hrf, hn, if_pos hlt, List.count_eq_zero.mpr h1, List.count_eq_zero.mpr h2, List.count_eq_zero.mpr h3] at h
+    have : (bids s'.batches).count i = 0 := by simp [bids, hb, eids]
+    omega
+  · intro i
+    have := hinv.R.blockCount i
+    rw [hd] at this; simpa using this
+
+/-- ReapTimeout terminates and completes what it stripped: after `strip`, whatever internal steps follow (of this and
+of any other ReapTimeout under way, in any order), there are at most `2 × (stripped + left over from before) +
+undelivered wake-ups` of them, and when none is left every call that was in the expired list when ReapTimeout
+was called has been completed exactly once -/
+theorem C15_reap_terminates (P : Params) (hv : Valid P) {s s1 : St} (hr : Reach P s) (hs : step P s .strip = some s1)
+    (acts : List Act) (s' : St) (hi : ∀ a ∈ acts, a.internal = true) (hrun : runActs P s1 acts = some s') :
+    acts.length + mu s' ≤ 2 * (s.batches.flatten.length + s.expired.length) + s.doneBuf.length ∧
+    (Quiescent P s' → ∀ i ∈ eids s.expired, (cids s'.completions).count i = 1) := by
+  have hr1 : Reach P s1 := Reach.step _ hr hs
+  obtain ⟨hm, hq⟩ := C15_eventually_completed P hv hr1 acts s' hi hrun
+  simp only [step] at hs
+  injection hs with hs; subst hs
+  refine ⟨?_, ?_⟩
+  · simp only [mu, List.flatten_append, List.length_append, List.flatten_cons, List.flatten_nil, List.append_nil] at hm ⊢
+    omega
+  · intro hqs i hmem
+    have h := (reach_inv P hv hr).ids i
+    have hpos : 0 < (eids s.expired).count i := List.count_pos_iff.mpr hmem
+    have hlt : i < s.nextId := by
+      rcases Nat.lt_or_ge i s.nextId with h' | h'
+      · exact h'
+      · rw [if_neg (by omega)] at h; omega
+    rw [if_pos hlt] at h
+    have r0 : s.refused.count i = 0 := by omega
+    have p0 : (pids s.pending).count i = 0 := by omega
+    exact (hq hqs).2.2.1 i hlt (List.count_eq_zero.mp r0) (List.count_eq_zero.mp p0) (by simp [eids])
+
 /-! ### non-vacuity: one schedule (Lemmas/C15.lean `demoActs`) — tests of one case, not proofs -/
 
 /-- the counter wraps past 0 with a call outstanding; an error reply, a duplicate, a stray response with
@@ -337,5 +426,21 @@ example : ∃ s, Reach params s ∧ s.batches = [[]] ∧ eids s.expired = [3, 2]
   ⟨_, reach_runActs params
     [.call .async 10, .call .async 20, .call .async 30, .call .block 40, .sweep 25, .strip, .complete 0 0,
      .sweep 50, .complete 0 0] (Reach.init 8) (by rfl), by decide⟩
+
+/-- `C15_eventually_completed` / `C15_reap_terminates`: the demo schedule up to its `strip` — the blocking call 1 is in
+the batch, measure 2; the two internal steps `complete 0 0`, `wake 1` bring it to 0, a quiescent state in which call 1
+is completed once and has returned (test of one schedule) -/
+example : ∃ s s', Reach params s ∧ bids s.batches = [1] ∧ mu s = 2 ∧ Unfinished s ∧
+    runActs params s [.complete 0 0, .wake 1] = some s' ∧ mu s' = 0 ∧ Quiescent params s' ∧
+    cids s'.completions = [0, 1] ∧ s'.returned = [(1, timeoutPkt params)] :=
+  ⟨_, _, reach_runActs params (demoActs.take 10) (Reach.init 4) (by rfl), by decide, by decide, Or.inl (by decide), by rfl,
+    by decide, quiescent_of_empty params (by decide) (by decide), by decide, by decide⟩
+
+/-- `C15_no_stuck` with `held = true`: capacity 1, one request in the queue (full), a ReapTimeout under way with call 0
+in its batch — Dispatch and sweep are disabled, `complete 0 0` and `pop` are enabled (test of one schedule) -/
+example : ∃ s, Reach params s ∧ HeldOk true s ∧ Unfinished s ∧ stepHeld params true s (.sweep 99) = none ∧
+    (stepHeld params true s (.complete 0 0)).isSome = true ∧ (stepHeld params true s .pop).isSome = true :=
+  ⟨_, reach_runActs params [.call .async 10, .pop, .sweep 11, .strip, .call .block 20] (Reach.init 1) (by rfl),
+    fun _ => by decide, Or.inl (by decide), by rfl, by rfl, by rfl⟩
 
 end Fatchoy.C15
